@@ -3,7 +3,7 @@ import ast
 
 import z3
 
-from .core import (Abort, Arr, BoundMethod, BreakSig, ClassV, ContinueSig, ExcInstance,
+from .core import (Abort, Arr, SymList, BoundMethod, BreakSig, ClassV, ContinueSig, ExcInstance,
                    ExcType, Func, Lam, LibMethod, LibRef, ModuleEnv, Obj, Opaque, PathCtx,
                    PathInfeasible, PyRaise, Repo, RepoModRef, ReturnSig, Scalars, Unsupported,
                    builtin_exc, exc_matches, is_bool_sym, is_sym, ite, simp, sort_kind,
@@ -351,6 +351,26 @@ class Interp:
         return self.call(fn, args, kwargs, node=node, frame=fr)
 
     def e_ListComp(self, node, fr):
+        if len(node.generators) == 1 and not node.generators[0].ifs and not node.generators[0].is_async:
+            g = node.generators[0]
+            src = self.eval(g.iter, fr)
+            if isinstance(src, SymList):
+                # map over a list of symbolic length: element k of the result is elt[target := src[k]].  The element
+                # expression is evaluated once at an arbitrary index (exceptions and branches surface there; a branch on
+                # the element is not supported), then per index on demand.
+                n, f0 = src.n, src.f
+
+                def at(k):
+                    sub = Frame(fr.func, {}, fr.module, parent=fr)
+                    self.assign(g.target, f0(k), sub)
+                    return self.eval(node.elt, sub)
+                k0 = self.ctx.fresh_int('k!comp')
+                self.ctx.assume(z3.And(0 <= k0, k0 < to_z3(n)))
+                depth = len(self.ctx.decisions) if hasattr(self.ctx, 'decisions') else None
+                at(k0)
+                if depth is not None and len(self.ctx.decisions) != depth:
+                    raise Unsupported('branching element expression in a comprehension over a symbolic list')
+                return SymList(n, at, 'comprehension')
         return list(self._comp(node, fr))
 
     def e_GeneratorExp(self, node, fr):
@@ -743,6 +763,7 @@ class Interp:
             inv.mode = 'assume'
             for nm, g in inv.inv(self, fr, n, it):
                 ctx.assume(g)
+            inv.at_exit(self, fr, it)
             self.exec_block(st.orelse, fr)
 
     def _while_with_invariant(self, st, fr, inv):
